@@ -496,6 +496,8 @@ class State:
             if isinstance(seq.base, SeqLit) and not seq.base.items:
                 return v
             return self.ite(i < seq.blen, self.seq_read(seq.base, i, slice_t), v)
+        if isinstance(seq, SeqCat):
+            return self.ite(i < seq.blen, self.seq_read(seq.base, i, slice_t), self.seq_read(seq.other, i - seq.blen, slice_t))
         if isinstance(seq, SeqUpd):
             return self.ite(i == seq.idx, seq.val, self.seq_read(seq.base, i, slice_t))
         if isinstance(seq, SeqOff):
